@@ -6,6 +6,7 @@ export GOFLAGS=-mod=mod GOPROXY=off GOSUMDB=off GOTOOLCHAIN=local CGO_ENABLED=0
 mkdir -p bin evidence/replays work lean/FitModel/Generated
 (cd translators/astfacts && go build -o ../../bin/astfacts .)
 (cd translators/go2lean && go build -o ../../bin/go2lean .)
+(cd translators/sharedstate && go build -o ../../bin/sharedstate .)   # C15: shared-state inventory (needs golang.org/x/tools v0.29.0 from the module cache)
 cp /repo/go.sum harness/go.sum
 (cd harness && go build -tags verif -o ../bin/fitharness .)
 # regenerate the data parts of the model from /repo, then build model, theorems and driver
